@@ -147,6 +147,7 @@ class Renderer(object):
         self.seed = seed
         self.key = key
         self.shapes = {}
+        self.loops = set()
 
     def pick(self, p, salt, n):
         return _h(self.seed, self.key, p, salt) % n
@@ -192,6 +193,7 @@ class Renderer(object):
             return self.block(s["a"], p * 8 + 1, ind) + self.block(s["b"], p * 8 + 2, ind)
         if t == "loop":
             it = "range(2)" if self.pick(p, "lp", 2) == 0 else "(0, 1)"
+            self.loops.add("range" if it == "range(2)" else "tuple")
             return [pad + "for _i%d in %s:" % (p, it)] + self.block(s["b"], p * 8 + 1, ind + 1)
         if t == "tf":
             return ([pad + "try:"] + self.block(s["b"], p * 8 + 1, ind + 1) +
@@ -236,7 +238,7 @@ def render_module(progs, seed):
     for name, prog in progs:
         r = Renderer(seed, prog_key(prog))
         lines += r.function(name, prog)
-        shapes[name] = r.shapes
+        shapes[name] = dict(r.shapes, loops="+".join(sorted(r.loops)))
     return "\n".join(lines) + "\n", shapes
 
 
